@@ -193,6 +193,8 @@ static void contactCase(verif::Run& run, const ContactCase& c, const std::string
         elementForce = cs; haveElement = true;
     }
     Force::Gravity byGravity(forces, matter, Vec3(0, -9.8, 0));
+    // (CablePath::Impl::realizeInstance prints debugging text to std::cout: silence it for the duration of this case)
+    struct CoutSilencer { std::streambuf* old; CoutSilencer() : old(std::cout.rdbuf(nullptr)) {} ~CoutSilencer() { std::cout.rdbuf(old); std::cout.clear(); } } silence;
     sys.realizeTopology();
     State s = sys.getDefaultState();
     byGravity.disable(s);
@@ -215,6 +217,7 @@ static void contactCase(verif::Run& run, const ContactCase& c, const std::string
     sys.realize(s, Stage::Velocity);
 
     Vector_<SpatialVec> F;
+    if (c.kind == 0 || c.kind == 1) sys.realize(s, Stage::Dynamics);    // GeneralContactSubsystem finds its contacts at Stage::Dynamics
     if (haveElement) { Vector_<Vec3> pF; Vector f; elementForce.calcForceContribution(s, F, pF, f); if (f.norm() != 0) run.count("unspecified:contact-element-applies-mobility-force"); }
     sys.realize(s, Stage::Dynamics);
     const Vector_<SpatialVec>& Fs = sys.getRigidBodyForces(s, Stage::Dynamics);
